@@ -320,7 +320,7 @@ pub fn coef_vec(max_len: usize) -> BoxedStrategy<Vec<(f64, f64)>> {
         2 => (1u32..=7).prop_flat_map(|k| prop_oneof![Just((1usize << k) - 1), Just(1usize << k), Just((1usize << k) + 1)]),
     ]
     .prop_map(move |l| l.clamp(1, max_len));
-    (len, 0u8..5).prop_flat_map(move |(l, shape)| {
+    (len, 0u8..7).prop_flat_map(move |(l, shape)| {
         let base = proptest::collection::vec(mag(), l);
         match shape {
             // sparse: most coefficients exactly zero, leading kept
@@ -353,6 +353,26 @@ pub fn coef_vec(max_len: usize) -> BoxedStrategy<Vec<(f64, f64)>> {
                         v[i] = (v[i].0 * 1e-13, v[i].1 * 1e-13);
                     }
                     v
+                })
+                .boxed(),
+            // small dyadic grid values, each coefficient purely real, purely imaginary or mixed: exact
+            // cancellations (zero real part with non-zero imaginary part and vice versa) become common
+            5 | 6 => proptest::collection::vec((-8i32..=8, -8i32..=8, 0u8..4), l)
+                .prop_map(move |v| {
+                    let n = v.len();
+                    let mut out: Vec<(f64, f64)> = v
+                        .into_iter()
+                        .map(|(a, b, k)| match k {
+                            0 => (a as f64 * 0.25, 0.0),
+                            1 => (0.0, b as f64 * 0.25),
+                            _ => (a as f64 * 0.25, b as f64 * 0.25),
+                        })
+                        .collect();
+                    // keep a non-negligible leading coefficient
+                    if out[n - 1].0 == 0.0 && (shape == 5 || out[n - 1].1 == 0.0) {
+                        out[n - 1].0 = 1.0;
+                    }
+                    out
                 })
                 .boxed(),
             // tiny leading coefficients (relative to the rest)
